@@ -451,3 +451,16 @@ ROUND5 = {
 }
 for _k, _t in ROUND5.items():
     PROPS[_k]["technique"] = PROPS[_k]["technique"] + "; round 5: " + _t
+
+
+# ---- round 6 (fifth, small seeding round: six properties, 14 changes)
+ROUND6 = {
+    "C03": "fields changed in place are never bound to a caller's object (defensive-copy ownership of the configuration lists)",
+    "C14": "line-splitting API table of the table modules (split('\\n'), never splitlines())",
+    "C17": "scratch-reset rule for LabelAlignment.align",
+    "C18": "trim API table of the answer read (strip), order of the by-value look-up against int(entry), reachability of stream-moving calls in the input stream's constructor (hasattr on a literal constant-folded)",
+    "C19": "no clear() of the stop event on the spinner side, unit of the redraw deadline (every store comes from the millisecond clock), frame renderer referenced under the lock only",
+    "C20": "the handler around the tokenizer takes both TokenError and SyntaxError, match-API table of the ignore pattern",
+}
+for _k, _t in ROUND6.items():
+    PROPS[_k]["technique"] = PROPS[_k]["technique"] + "; round 6: " + _t
